@@ -515,6 +515,9 @@ func (p *Program) Files(withDriver bool) map[string]string {
 					}
 				}
 				c.blank = append(c.blank, p.InjBlankImports...)
+				if p.BlankLibs == "injector" {
+					c.blank = append(c.blank, p.blankLibPaths()...)
+				}
 				if p.InjRaw != "" {
 					c.pf("%s\n", p.InjRaw)
 				}
@@ -529,6 +532,14 @@ func (p *Program) Files(withDriver bool) map[string]string {
 			if strings.HasPrefix(k, "0/") {
 				files[filepath.Join(dir, strings.TrimPrefix(k, "0/"))] = v
 			}
+		}
+		if p.BlankLibs == "file" {
+			src := "package " + p.Pkgs[0].Name + "\n\nimport (\n"
+			for _, ip := range p.blankLibPaths() {
+				src += "\t_ \"" + ip + "\"\n"
+			}
+			src += "\t_ \"fmt\"\n)\n"
+			files[filepath.Join(dir, "blank_imports.go")] = src
 		}
 		// --- driver
 		if withDriver {
